@@ -62,6 +62,19 @@ theorem C12_lim_packets (limit : Nat) (ls : List Bytes) (tail : Bytes)
     (autoRun limit {} (ls.flatten ++ tail)).2 = ls.filter (fun l => l.length ≤ limit + 1) :=
   autoRun_lines limit ls tail hl ht
 
+/-- **Nothing is left to deliver when the stream ends**: after every feed the loop is in a stable state (`C12_lim_refines`), and in a
+stable state a receive call finds no line — it waits, and at the end of the stream `readuntil` hands the client the unterminated rest, which
+is not a line and is not decoded.  So the lines of `C12_lim_packets` are all there is, whether or not the stream goes on -/
+theorem C12_lim_eof (limit fuel : Nat) (st : LState) (h : Stable limit st) :
+    stepLim limit st = none ∧ (drainLim limit fuel st []).2 = [] := by
+  have h1 : findNl st.buf = none := findNl_eq_none.2 h.1
+  have h2 : ¬ limit < st.buf.length := Nat.not_lt.2 h.2
+  have hs : stepLim limit st = none := by simp [stepLim, h1, h2]
+  refine ⟨hs, ?_⟩
+  cases fuel with
+  | zero => simp [drainLim]
+  | succ n => simp [drainLim, hs]
+
 -- non-vacuity: limit 3; "abcdefg\nhi\n" in one read and cut inside the overlong line
 example : (feedAllLim 3 {} [[97, 98, 99, 100, 101, 102, 103, 10, 104, 105, 10]]).2 = [[104, 105, 10]] := by decide
 example : (feedAllLim 3 {} [[97, 98, 99, 100, 101], [102, 103, 10, 104, 105, 10]]).2 = [[104, 105, 10]] := by decide
